@@ -151,18 +151,27 @@ def _fq(f):
     return {"none": None, "pre": "pre", "post": "post"}[f]
 
 
+UNKNOWN = 999      # how a list member that is none of the created DAGNode objects is shown (None, junk, a stray copy)
+
+
 def _links(nodes, mismatch=None):
+    """what the objects hold, through the public getters.  Never raises on odd content: a member that is
+    not one of the created nodes is reported as UNKNOWN and judged by Coq like everything else."""
     idx = {id(n): i for i, n in enumerate(nodes)}
+
+    def ids(seq):
+        return [idx.get(id(x), UNKNOWN) for x in seq]
+
     out = []
     for n in nodes:
-        ps = [idx[id(x)] for x in n.parents]
-        cs = [idx[id(x)] for x in n.children]
+        ps = ids(n.parents)
+        cs = ids(n.children)
         if mismatch is not None:
             for attr, seen in (("_DAGNode__parents", ps), ("_DAGNode__children", cs)):
                 raw = getattr(n, attr, None)
-                if raw is not None and [idx[id(x)] for x in raw] != seen:
+                if raw is not None and ids(raw) != seen:
                     mismatch.append(attr)
-            if [idx[id(x)] for x in n.parents] != ps or [idx[id(x)] for x in n.children] != cs:
+            if ids(n.parents) != ps or ids(n.children) != cs:
                 mismatch.append("getter not repeatable")
             if bool(n.is_root) != (not ps) or bool(n.is_leaf) != (not cs):
                 mismatch.append("is_root/is_leaf")
@@ -253,7 +262,8 @@ def _upward(links, x):
         y = st.pop()
         if y not in seen:
             seen.append(y)
-            st.extend(links[y][0])
+            if y < len(links):
+                st.extend(links[y][0])
     return sorted(seen)
 
 
@@ -266,6 +276,8 @@ def _swap_in_copy(nodes, x, kept):
     stack = [(orig, cp)]
     while stack:
         o, c = stack.pop()
+        if not hasattr(o, "parents") and type(o) is type(c):
+            continue                                   # a non-node member (only possible outside the modelled domain)
         if type(o) is not type(c) or o.node_name != c.node_name:
             raise RuntimeError("copy() changed class or name")
         for ol, cl_ in ((o.parents, c.parents), (o.children, c.children)):
@@ -376,7 +388,7 @@ def run_history(case, battery=False):
         for i in sample:
             n = nodes[i]
             a = _guard(lambda: [idx.get(id(x), -1) for x in n.ancestors])
-            q.append([i, sorted(x if x >= 0 else 999 for x in a) if a[:1] != ["exn"] else _upward(links, i)])
+            q.append([i, sorted(x if x >= 0 else UNKNOWN for x in a) if a[:1] != ["exn"] else _upward(links, i)])
             if battery:
                 m = nodes[(i + 1 + k) % len(nodes)]
                 derived.append([i, a, _guard(lambda: [idx.get(id(x), -1) for x in n.descendants]),
@@ -393,11 +405,10 @@ def run_history(case, battery=False):
     links = _links(nodes)
     anc = []
     for i, n in enumerate(nodes):
-        try:
-            anc.append(sorted(idx[id(a)] for a in n.ancestors))
-        except RecursionError:
-            # `ancestors` does not terminate on a cyclic structure: report the true upward closure
-            anc.append(_upward(links, i))
+        a = _guard(lambda: [idx.get(id(x), UNKNOWN) for x in n.ancestors])
+        # `ancestors` does not terminate on a cyclic structure (or trips over a non-node member): report the
+        # upward closure of the observed links instead
+        anc.append(sorted(a) if a[:1] != ["exn"] else _upward(links, i))
     for n, ps, cs in kept:
         if [id(p) for p in n.parents] != ps or [id(c) for c in n.children] != cs:
             mismatch.append("an original changed after the history continued on its copy")
@@ -845,8 +856,14 @@ def gen_case(rng, prop, fault_rate=0.08, invalid_rate=0.2, nmax=8, maxops=16, mi
         cands = [x for x in range(n) if x not in bad]
         rng.shuffle(cands)
         args = _N(cands[: rng.randint(0, min(3, len(cands)))])
+        clean = [setter, t, "list", list(args), "none"]
         args.insert(rng.randint(0, len(args)), rng.choice([["None"], ["None"], ["Junk"]]))
-        push([setter, t, "list", args, "none"])
+        probe, nm = Shadow(par=sh.par, kid=sh.kid), list(names)
+        shadow_apply(probe, nm, clean)
+        # (value equality: with the checks off the members are linked before the junk member is reached, and
+        # the rollback runs -- the attempted links have to stay inside the well-defined domain as well)
+        if kind != "valeq" or eq_safe(sh, probe, nm, True):
+            push([setter, t, "list", args, "none"])
     case = {"assert": True, "n": n0, "names": names[:n0], "ops": ops, "stratum": f"{shape}/{pool_name}"}
     if kind != "auto":
         case["cls"] = kind
